@@ -66,6 +66,8 @@ class World:
         self.focus = focus
         self.profile = profile or {}
         self.reps = []
+        self.idmap = {}
+        self.next_rid = 0
         self.stats = Counter()
         self.log = []
         self.trans = set()       # distinct (model digest, op class) transitions
@@ -78,6 +80,26 @@ class World:
         from . import findings
         self.open_guards = findings.open_ids()
         self.evals = 0
+
+    # stable replica ids: creating operations carry 'rid'; later operations address replicas by
+    # rid, so dropping or failing a creating operation never re-targets the operations after it
+    def add_replica(self, rep, op):
+        self.reps.append(rep)
+        rid = op.get('rid')
+        if rid is None:
+            rid = len(self.reps) - 1
+        self.idmap[rid] = len(self.reps) - 1
+        return len(self.reps) - 1
+
+    def rep_by_id(self, rid):
+        i = self.idmap.get(rid)
+        return None if i is None else self.reps[i]
+
+    def rid_of(self, index):
+        for r, i in self.idmap.items():
+            if i == index:
+                return r
+        return None
 
     def count(self, name, n=1):
         if not self.quiet:
